@@ -217,7 +217,7 @@ def regular_grid_interpolator(
         Interpolated value in data grid for a given position
     """
     interp = scipy.interpolate.RegularGridInterpolator((np.flip(grid_y[:,0]), grid_x[0]), np.flipud(values))
-    if type(x) == float or type(x) == np.float64:
+    if np.ndim(x) == 0:  # a single position: Python float or int, NumPy scalar, 0-dimensional array
         x = np.array([x])
         y = np.array([y])
     points = list(map(lambda coord: list(coord), zip(y,x)))
